@@ -59,8 +59,15 @@ def cell_in(x, *names):
     return any(same(x, rep(CELL_INDEX[n])) for n in names)
 
 
+def finite_small(d, bound=10 ** 9):
+    try:
+        return bool(abs(d) < bound)
+    except Exception:  # noqa: BLE001
+        return False
+
+
 def concrete_env():
     return {
         "ctor_ok": ctor_ok, "ctor_exc": ctor_exc, "ctor_outcome": ctor_outcome, "same": same,
-        "implies": implies, "iff": iff, "ite": ite, "py": py, "cell_in": cell_in, "math": math,
+        "implies": implies, "iff": iff, "ite": ite, "py": py, "cell_in": cell_in, "math": math, "finite_small": finite_small,
     }
